@@ -228,6 +228,9 @@ func DecodeJSON(b []byte) ([8]*big.Int, error) {
 	if err := dec.Decode(&pj); err != nil {
 		return out, err
 	}
+	if rest, _ := io.ReadAll(dec.Buffered()); len(bytes.TrimSpace(rest)) != 0 || dec.More() {
+		return out, fmt.Errorf("trailing data after the proof JSON document")
+	}
 	if len(pj.Ar) != 2 || len(pj.Krs) != 2 || len(pj.Bs) != 2 || len(pj.Bs[0]) != 2 || len(pj.Bs[1]) != 2 {
 		return out, fmt.Errorf("proof JSON does not have the shape ar[2] bs[2][2] krs[2]")
 	}
